@@ -25,6 +25,7 @@ CONSTANTS Att,        \* attempt identifiers, 1..N
           Keys,       \* callback IDs usable on /i/{id} and /o/{id}; contains ""
           MaxReq,     \* bound on the number of HTTP requests
           PerReqKey,  \* see above
+          MaxHangups, \* bound on the number of clients that go away while waiting
           EmitEdges   \* TRUE: print one EDGE line per transition (for replay)
 
 None == 0
@@ -40,9 +41,11 @@ VARIABLES
   doRet,      \* Broker.Do has returned
   pc,         \* per attempt: new -> lock -> (done | proxy -> ended -> done)
   adir, akey, areq,   \* per attempt: direction, key, request number
-  cancelled,  \* attempts whose context was cancelled by the peer's Release
+  cancelled,  \* attempts whose context is cancelled: by the peer's Release, or because
+              \* the client went away while the attempt was still waiting for b.mu
   outcome,    \* per attempt: none | accepted | refused | silent
   nreq,       \* requests so far
+  hung,       \* clients gone while waiting so far (bounds the model only)
   \* history (counters are bounded by the number of attempts)
   told,       \* attempts whose refusal was shown to the operator
   ready,      \* number of ready notices (= connected events)
@@ -52,7 +55,7 @@ VARIABLES
 
 hvars == <<told, ready, gone, gens>>
 vars == <<key, cIn, cOut, noMore, doRet, pc, adir, akey, areq, cancelled,
-          outcome, nreq, told, ready, gone, gens, act>>
+          outcome, nreq, hung, told, ready, gone, gens, act>>
 
 Holder(d) == IF d = "in" THEN cIn ELSE cOut
 Attached(d) == {a \in Att : pc[a] \in {"proxy", "ended"} /\ adir[a] = d}
@@ -64,7 +67,7 @@ Init ==
   /\ adir = [a \in Att |-> "in"]
   /\ akey = [a \in Att |-> ""]
   /\ areq = [a \in Att |-> 0]
-  /\ cancelled = {} /\ outcome = [a \in Att |-> "none"] /\ nreq = 0
+  /\ cancelled = {} /\ outcome = [a \in Att |-> "none"] /\ nreq = 0 /\ hung = 0
   /\ told = {} /\ ready = 0 /\ gone = 0 /\ gens = 0
   /\ act = [n |-> "Init"]
 
@@ -78,7 +81,7 @@ ArriveUni(a, d, k) ==
   /\ nreq' = nreq + 1
   /\ areq' = [areq EXCEPT ![a] = nreq + 1]
   /\ act' = [n |-> "ArriveUni", a |-> a, d |-> d, k |-> k]
-  /\ UNCHANGED <<key, cIn, cOut, noMore, doRet, cancelled, outcome, hvars>>
+  /\ UNCHANGED <<hung, key, cIn, cOut, noMore, doRet, cancelled, outcome, hvars>>
 
 (* A handler calls ConnectInOut: two attempts, started independently. *)
 ArriveIO(a, b) ==
@@ -90,7 +93,18 @@ ArriveIO(a, b) ==
   /\ nreq' = nreq + 1
   /\ areq' = [areq EXCEPT ![a] = nreq + 1, ![b] = nreq + 1]
   /\ act' = [n |-> "ArriveIO", a |-> a, b |-> b]
-  /\ UNCHANGED <<key, cIn, cOut, noMore, doRet, cancelled, outcome, hvars>>
+  /\ UNCHANGED <<hung, key, cIn, cOut, noMore, doRet, cancelled, outcome, hvars>>
+
+(* The client of a request goes away (its context is cancelled) while its   *)
+(* attempts still wait for the lock.  Admission does not look at that: the  *)
+(* stream is admitted or refused, and recorded, like any other, and its     *)
+(* proxy then ends at once.                                                 *)
+Hangup(a) ==
+  /\ pc[a] = "lock" /\ a \notin cancelled /\ ~noMore /\ hung < MaxHangups
+  /\ hung' = hung + 1
+  /\ cancelled' = cancelled \cup {b \in Att : areq[b] = areq[a] /\ pc[b] \in {"lock", "proxy"}}   \* both halves of /io share the request
+  /\ act' = [n |-> "Hangup", a |-> a]
+  /\ UNCHANGED <<key, cIn, cOut, noMore, doRet, pc, adir, akey, areq, outcome, nreq, hvars>>
 
 (* Every reason for which the code may refuse a; the code reports the first *)
 (* in its own order (iobroker.go), the specification allows any of them.    *)
@@ -123,7 +137,7 @@ Admit(a) ==
           /\ gens' = IF cIn = None /\ cOut = None THEN gens + 1 ELSE gens
           /\ act' = [n |-> "Admit", a |-> a, o |-> "accepted", rs |-> {}]
           /\ UNCHANGED told
-  /\ UNCHANGED <<noMore, doRet, adir, akey, areq, cancelled, nreq, gone>>
+  /\ UNCHANGED <<noMore, doRet, adir, akey, areq, cancelled, nreq, hung, gone>>
 
 (* The proxy of an attached attempt returns: by itself ("self": EOF, error, *)
 (* its own request context) or because the peer's Release cancelled it.     *)
@@ -133,7 +147,7 @@ ProxyEnd(a, why) ==
   /\ (why = "cancel") <=> (a \in cancelled)
   /\ pc' = [pc EXCEPT ![a] = "ended"]
   /\ act' = [n |-> "ProxyEnd", a |-> a, why |-> why]
-  /\ UNCHANGED <<key, cIn, cOut, noMore, doRet, adir, akey, areq, cancelled,
+  /\ UNCHANGED <<hung, key, cIn, cOut, noMore, doRet, adir, akey, areq, cancelled,
                  outcome, nreq, hvars>>
 
 Release(a) ==
@@ -146,13 +160,13 @@ Release(a) ==
      /\ gone' = IF oth = None THEN gone + 1 ELSE gone
   /\ pc' = [pc EXCEPT ![a] = "done"]
   /\ act' = [n |-> "Release", a |-> a]
-  /\ UNCHANGED <<noMore, doRet, adir, akey, areq, outcome, nreq, told, ready, gens>>
+  /\ UNCHANGED <<noMore, doRet, adir, akey, areq, outcome, nreq, hung, told, ready, gens>>
 
 (* Broker.Do's context is cancelled: no more connections. *)
 Shutdown ==
   /\ ~noMore /\ noMore' = TRUE
   /\ act' = [n |-> "Shutdown"]
-  /\ UNCHANGED <<key, cIn, cOut, doRet, pc, adir, akey, areq, cancelled, outcome,
+  /\ UNCHANGED <<hung, key, cIn, cOut, doRet, pc, adir, akey, areq, cancelled, outcome,
                  nreq, hvars>>
 
 (* Broker.Do returns once wg is zero. *)
@@ -160,13 +174,13 @@ DoReturns ==
   /\ noMore /\ ~doRet /\ AllAttached = {}
   /\ doRet' = TRUE
   /\ act' = [n |-> "DoReturns"]
-  /\ UNCHANGED <<key, cIn, cOut, noMore, pc, adir, akey, areq, cancelled, outcome,
+  /\ UNCHANGED <<hung, key, cIn, cOut, noMore, pc, adir, akey, areq, cancelled, outcome,
                  nreq, hvars>>
 
 Next ==
   \/ \E a \in Att, d \in Dirs, k \in Keys : ArriveUni(a, d, k)
   \/ \E a, b \in Att : ArriveIO(a, b)
-  \/ \E a \in Att : Admit(a) \/ Release(a) \/ \E w \in {"self", "cancel"} : ProxyEnd(a, w)
+  \/ \E a \in Att : Admit(a) \/ Release(a) \/ Hangup(a) \/ \E w \in {"self", "cancel"} : ProxyEnd(a, w)
   \/ Shutdown \/ DoReturns
 
 Fair == /\ \A a \in Att : WF_vars(Admit(a)) /\ WF_vars(Release(a)) /\ WF_vars(ProxyEnd(a, "cancel"))
@@ -205,6 +219,11 @@ RefusedWhenRequired ==
         /\ (~noMore /\ Reasons(a) # {} => outcome'[a] = "refused" /\ a \in told')
         /\ (outcome'[a] # "accepted" => pc'[a] = "done" /\ key' = key /\ cIn' = cIn /\ cOut' = cOut)]_vars
 
+(* C11: only a broker that is shutting down lets a stream go unrecorded; a  *)
+(* client that has already gone is no reason.                               *)
+SilentOnlyAtShutdown ==
+  [][\A a \in Att : Admit(a) => ((outcome'[a] = "silent") <=> noMore)]_vars
+
 (* C04: from the idle state any well-formed attempt is accepted. *)
 ReArm ==
   [][\A a \in Att : (Admit(a) /\ ~noMore /\ cIn = None /\ cOut = None /\ akey[a] # "")
@@ -239,17 +258,17 @@ ShutdownEnds == (noMore /\ AllAttached = {}) ~> doRet
 
 -----------------------------------------------------------------------------
 View == <<key, cIn, cOut, noMore, doRet, pc, adir, akey, areq, cancelled,
-          outcome, nreq, told, ready, gone, gens>>
+          outcome, nreq, hung, told, ready, gone, gens>>
 
-Proj(k, i, o, nm, dr, p, ad, ak, ar, ca, oc, t, r, g) ==
-  [key |-> k, cin |-> i, cout |-> o, nomore |-> nm, doret |-> dr, pc |-> p,
+Proj(k, i, o, nm, dr, p, ad, ak, ar, ca, oc, t, r, g, h) ==
+  [hung |-> h, key |-> k, cin |-> i, cout |-> o, nomore |-> nm, doret |-> dr, pc |-> p,
    adir |-> ad, akey |-> ak, areq |-> ar, cancelled |-> ca, outcome |-> oc,
    told |-> t, ready |-> r, gone |-> g]
 
 Emit ==
   \/ ~EmitEdges
   \/ PrintT(<<"EDGE", ToJson(
-       [from |-> Proj(key, cIn, cOut, noMore, doRet, pc, adir, akey, areq, cancelled, outcome, told, ready, gone),
+       [from |-> Proj(key, cIn, cOut, noMore, doRet, pc, adir, akey, areq, cancelled, outcome, told, ready, gone, hung),
         act  |-> act',
-        to   |-> Proj(key', cIn', cOut', noMore', doRet', pc', adir', akey', areq', cancelled', outcome', told', ready', gone')])>>)
+        to   |-> Proj(key', cIn', cOut', noMore', doRet', pc', adir', akey', areq', cancelled', outcome', told', ready', gone', hung')])>>)
 =============================================================================
